@@ -73,11 +73,20 @@ def _integrator(run, ci):
         else:
             run.fail('C10-R1', K + 'unguarded-store:' + idx, ci.mod.relpath, st.lineno,
                      '%s.integrate adds to spectrum.samples_mv[%s] without checking %s > -1: masked-out cells (map value -1) write into the last bin' % (ci.name, idx, idx))
-    cur = 'isource_current'
+    # roles from the stores themselves: samples[<current source>] += <running length>
+    pairs = {(norm(st.target.slice), norm(st.value)) for st in sts if isinstance(st.value, ast.Name)}
+    if len(pairs) != 1:
+        run.subject('C10-R2')
+        run.undecided('C10-R2', ci.name + '.integrate', 'stores into the spectrum do not use one (index, running length) pair: %s' % sorted(pairs))
+        return
+    cur, RES = list(pairs)[0]
+    NONNEG = (cur + ' > -1', cur + ' >= 0', '-1 < ' + cur, '0 <= ' + cur)
     src_defs = [norm(v) for t, v, s in stores(fn) if isinstance(t, ast.Name) and t.id == cur and isinstance(s, ast.Assign)]
-    isrc = [norm(v) for t, v, s in stores(fn) if isinstance(t, ast.Name) and t.id == 'isource' and isinstance(s, ast.Assign)]
+    newsrc = sorted(set(src_defs) - {'-1'})
+    ISRC = newsrc[0] if len(newsrc) == 1 else 'isource'
+    isrc = [norm(v) for t, v, s in stores(fn) if isinstance(t, ast.Name) and t.id == ISRC and isinstance(s, ast.Assign)]
     run.subject('C10-R1')
-    if set(src_defs) <= {'-1', 'isource'} and len(isrc) == 1 and isrc[0].startswith('voxel_map_mv['):
+    if set(src_defs) <= {'-1', ISRC} and len(isrc) == 1 and re.match(r'^\w*voxel_map\w*\[', isrc[0]):
         run.ok('C10-R1', ci.name + ' index provenance', 'isource_current <- isource <- %s' % isrc[0])
     else:
         run.fail('C10-R1', K + 'index-provenance', ci.mod.relpath, fn.lineno, 'the stored index comes from %s / %s, not from the voxel map' % (src_defs, isrc))
@@ -94,21 +103,23 @@ def _integrator(run, ci):
     else:
         run.fail('C10-R2', K + 'sampling', ci.mod.relpath, fn.lineno,
                  'sampling is n = %s, dt = %s, t = %s over %s' % (defs.get('n'), defs.get('dt'), defs.get('t'), norm(lp.iter)))
-    acc = [st for st in ast.walk(lp) if isinstance(st, ast.AugAssign) and norm(st.target) == 'res']
+    acc = [st for st in ast.walk(lp) if isinstance(st, ast.AugAssign) and norm(st.target) == RES]
     run.subject('C10-R2')
     okacc = len(acc) == 1 and norm(acc[0].value) == 'dt' and isinstance(acc[0].op, ast.Add)
     if okacc:
         f = facts(guards_of(fn, acc[0]) or [])
-        okacc = (cur, '>', '-1') in f and not any('ir' in a[0] or 'ix' in a[0] or 'iz' in a[0] for a in f if a[1] in ('==', '!='))
+        idxvars = {norm(e) for n_ in ast.walk(fn) if isinstance(n_, ast.Subscript) and 'voxel_map' in norm(n_.value) and isinstance(n_.slice, ast.Tuple)
+                   for e in n_.slice.elts}
+        okacc = ((cur, '>', '-1') in f or (cur, '>=', '0') in f) and not any(a[0] in idxvars or a[2] in idxvars for a in f if a[1] in ('==', '!='))
         # the accumulation is at the top level of the loop body (not inside the cell-change branch)
-        okacc = okacc and any(isinstance(s, ast.If) and norm(s.test) == cur + ' > -1' and acc[0] in s.body for s in lp.body)
+        okacc = okacc and any(isinstance(s, ast.If) and norm(s.test) in NONNEG and acc[0] in s.body for s in lp.body)
     if okacc:
         run.ok('C10-R2', ci.name + ' accumulation', 'res += dt for every sample while a source is active')
     else:
         run.fail('C10-R2', K + 'accumulation', ci.mod.relpath, (acc[0] if acc else lp).lineno,
                  '%s.integrate does not add dt to the running length for every sample taken while a source is active' % ci.name)
     # reset only after flush
-    resets = [st for st in ast.walk(lp) if isinstance(st, ast.Assign) and norm(st.targets[0]) == 'res']
+    resets = [st for st in ast.walk(lp) if isinstance(st, ast.Assign) and norm(st.targets[0]) == RES]
     run.subject('C10-R2')
     okreset = False
     for r in resets:
@@ -117,9 +128,9 @@ def _integrator(run, ci):
             continue
         i = blk.index(r)
         before = blk[:i]
-        flush = [s for s in before if isinstance(s, ast.If) and norm(s.test) in (cur + ' > -1', cur + ' >= 0')
-                 and any(isinstance(x, ast.AugAssign) and norm(x.target) == '%s.samples_mv[%s]' % (sp, cur) and norm(x.value) == 'res' for x in s.body)]
-        switch = [s for s in blk if isinstance(s, ast.Assign) and norm(s.targets[0]) == cur and norm(s.value) == 'isource']
+        flush = [s for s in before if isinstance(s, ast.If) and norm(s.test) in NONNEG
+                 and any(isinstance(x, ast.AugAssign) and norm(x.target) == '%s.samples_mv[%s]' % (sp, cur) and norm(x.value) == RES for x in s.body)]
+        switch = [s for s in blk if isinstance(s, ast.Assign) and norm(s.targets[0]) == cur and norm(s.value) == ISRC]
         # the flush must precede both the reset and the switch of the current source
         if flush and switch and blk.index(flush[0]) < blk.index(switch[0]) and norm(r.value) in ('0', '0.0'):
             okreset = True
@@ -130,20 +141,21 @@ def _integrator(run, ci):
                  '%s.integrate resets the running length without first storing it for the source being left: part of the chord is dropped' % ci.name)
     run.subject('C10-R2')
     tail = [s for s in fn.body if s.lineno > lp.lineno]
-    okfinal = any(isinstance(s, ast.If) and norm(s.test) in (cur + ' > -1', cur + ' >= 0')
-                  and any(isinstance(x, ast.AugAssign) and norm(x.target) == '%s.samples_mv[%s]' % (sp, cur) and norm(x.value) == 'res' for x in s.body) for s in tail)
+    okfinal = any(isinstance(s, ast.If) and norm(s.test) in NONNEG
+                  and any(isinstance(x, ast.AugAssign) and norm(x.target) == '%s.samples_mv[%s]' % (sp, cur) and norm(x.value) == RES for x in s.body) for s in tail)
     okfinal = okfinal and tail and isinstance(tail[-1], ast.Return) and norm(tail[-1].value) == sp
     if okfinal:
         run.ok('C10-R2', ci.name + ' final flush', 'after the loop the last source receives its length')
     else:
         run.fail('C10-R2', K + 'final-flush', ci.mod.relpath, fn.lineno, '%s.integrate does not store the running length of the last source after the loop' % ci.name)
     run.subject('C10-R2')
-    init_ok = defs.get('res', [None])[0] in ('0', '0.0') and defs.get(cur, [None])[0] == '-1'
-    chg = [s for s in ast.walk(lp) if isinstance(s, ast.If) and norm(s.test) == 'isource != isource_current']
+    init_ok = defs.get(RES, [None])[0] in ('0', '0.0') and defs.get(cur, [None])[0] == '-1'
+    chg = [s for s in ast.walk(lp) if isinstance(s, ast.If) and norm(s.test).replace(' ', '') in (
+        '%s!=%s' % (ISRC, cur), '%s!=%s' % (cur, ISRC), 'not%s==%s' % (ISRC, cur), 'not%s==%s' % (cur, ISRC))]
     if init_ok and chg:
         run.ok('C10-R2', ci.name + ' source switch', 'starts with no source; switches when the map value changes', sample=False)
     else:
-        run.fail('C10-R2', K + 'source-switch', ci.mod.relpath, fn.lineno, 'initial state %s / %s or the source-change test is missing' % (defs.get('res'), defs.get(cur)))
+        run.fail('C10-R2', K + 'source-switch', ci.mod.relpath, fn.lineno, 'initial state %s / %s or the source-change test is missing' % (defs.get(RES), defs.get(cur)))
     # ---- R3
     _indices(run, ci, fn, K, defs, in_loop=True)
 
@@ -178,7 +190,13 @@ def _indices(run, ci, fn, K, defs, in_loop):
         run.subject('C10-R3')
         gp = defs.get('phi', [])
         gi = defs.get('iphi', [])
-        okp = len(gp) == 2 and gp[0] == phi[0] and re.sub(r'360(\.0)?', '360', gp[1]) == re.sub(r'360(\.0)?', '360', phi[1]) and [g for g in gi if g != '-1'] == iphi
+        okp = len(gp) == 2 and gp[0] == phi[0] and re.sub(r'360(\.0)?', '360', gp[1]) == re.sub(r'360(\.0)?', '360', phi[1]) and sorted(g for g in gi if g != '-1') == sorted(iphi)
+        # the constant index 0 is used exactly for the single-sector (axisymmetric) grid
+        zero = [st for t, v, st in stores(fn) if isinstance(t, ast.Name) and t.id == 'iphi' and norm(v) == '0']
+        for st in zero:
+            fz = facts(guards_of(fn, st) or [])
+            if not any(a[1] == '==' and a[2] == '1' for a in fz):
+                okp = False
         if okp:
             run.ok('C10-R3', '%s.%s phi index' % (ci.name, fn.name), 'phi = (deg(atan2(y, x)) + 360) % period ; iphi = int(phi / dphi) ; single sector -> 0')
         else:
